@@ -37,11 +37,20 @@ type Handler[C Client] struct {
 }
 
 func (h *Handler[C]) Handle(w *responsewriter.ResponseWriter[C], r *pool.Message) {
-	if o, ok := h.observations.Load(r.Token().Hash()); ok {
-		o.handle(r)
-		return
+	// Tokens are scoped per direction: a request of the peer may carry the token bytes of one of our
+	// observations and is not a notification of it.
+	if !isRequest(r) {
+		if o, ok := h.observations.Load(r.Token().Hash()); ok {
+			o.handle(r)
+			return
+		}
 	}
 	h.next(w, r)
+}
+
+// isRequest reports whether r carries a method code (0.01 - 0.31).
+func isRequest(r *pool.Message) bool {
+	return r.Code() >= codes.GET && r.Code() < codes.Code(0x20)
 }
 
 func (h *Handler[C]) client() C {
